@@ -35,10 +35,14 @@ Theorem C18_calls_consistent : calls_consistent callee_functions = true.
 Proof. exact calls_consistent_all. Qed.
 Print Assumptions C18_calls_consistent.
 
-(* No public callable (outside the named exceptions) modifies an argument buffer ... *)
+(* No public callable (outside the recorded findings) modifies an argument buffer, except
+   possibly at the argument positions named in unproved_args for that callable
+   (org st b = LArg i: b is the buffer passed as the i-th parameter). *)
 Theorem C18_public_args_intact : forall f p, In (f, p) public_functions -> args_exempt f = false ->
   forall st st', init_ok p st -> exec (body p) st st' ->
-  forall b, arg_buffer p st b -> ver st' b = ver st b.
+  forall b, arg_buffer p st b ->
+  (forall i, org st b = LArg i -> existsb (Nat.eqb i) (allowed_args unproved_args f) = false) ->
+  ver st' b = ver st b.
 Proof. exact public_args_intact. Qed.
 Print Assumptions C18_public_args_intact.
 
@@ -52,7 +56,7 @@ Print Assumptions C18_public_results_not_cached.
 (* Each named exception is really rejected by the checker (for the recorded
    findings this is the refutation of the clause on the generated program). *)
 Theorem C18_exceptions_refuted :
-  forallb rejected_args (known_arg_writers ++ unproved_args) = true /\
+  forallb rejected_args (known_arg_writers ++ map fst unproved_args) = true /\
   forallb rejected_ret (known_cache_returners ++ cache_accessors) = true.
 Proof. exact exceptions_refuted. Qed.
 Print Assumptions C18_exceptions_refuted.
